@@ -1,6 +1,6 @@
 """make_move as a decision table (semtable): which inputs make it drop the move, set the half-move reset flag and set
 each castling-right-lost flag. Shared by C01.R4 and C02.R4/R5."""
-from ..expr import Inliner, show
+from ..expr import Inliner, show, leaves
 from ..semtable import explore, judge, TooBig
 from ..slice import Slicer
 from .. import geometry as G
@@ -24,6 +24,11 @@ def var_of(t):
     if t[0] == "param" and t[1] in PARAMS:
         return PARAMS[t[1]]
     if t[0] == "call" and t[1].endswith("::get_piece_const_by_square_shift"):
+        # what stands on the target (or e.p. victim) square is the captured piece; a look at the source square (an
+        # assertion that the moving piece is there) is something else
+        lv = list(leaves(t[2][1])) + [t[2][1]] if len(t[2]) > 1 else []
+        if ("param", 4) in lv and ("param", 5) not in lv:
+            return "on_source"
         return "attacked"
     if t[0] == "f" and t[2] in ("king_side_castle", "queen_side_castle"):
         o = _strip(t[1])
@@ -52,8 +57,15 @@ def table(ctx, rid, observed=()):
         "turn": [c["WHITE"], c["BLACK"]], "filter": [0, 1], "source": squares, "target": squares,
         "piece": [c["PAWN"], c["KNIGHT"], c["ROOK"], c["KING"]], "castle": [0, 1], "ep": [0, 1],
         "promote": [c["NO_PIECE"], c["QUEEN"]], "next_ep": [64, 20], "attacked": [c["NO_PIECE"], c["PAWN"], c["ROOK"]],
+        "on_source": [c["PAWN"], c["KNIGHT"], c["ROOK"], c["KING"]],
         "white.king_side_castle": [0, 1], "white.queen_side_castle": [0, 1], "black.king_side_castle": [0, 1], "black.queen_side_castle": [0, 1],
     }
+    n_setters = len({(blk["term"]["callee"].get("key") or "") for blk in f["blocks"] if blk["term"]["k"] == "call" and (blk["term"]["callee"].get("key") or "").startswith(MF.MOVE + "set_")})
+    if n_setters < 8:
+        # the move word is assembled without (most of) Move's setters (OR-ed together in one expression): which flags a
+        # generated move carries cannot be read off setter calls
+        ctx.lost(rid, "make_move records the move through Move's setters (only %d different setters are called)" % n_setters)
+        return None
     seeds = []
     for bi, blk in enumerate(f["blocks"]):
         t = blk["term"]
@@ -62,7 +74,8 @@ def table(ctx, rid, observed=()):
             if k.endswith("Vec::push") or any(k == MF.MOVE + s for s in observed):
                 seeds.append(bi)
     sl = Slicer(f)
-    sl.backward_from_blocks(seeds)
+    sl.backward([], seeds)       # (whether a setter is called, not what it is given: control dependence only -
+    #  the move being built is an argument of every setter and would make every decision relevant)
     inl = Inliner(prog, only=lambda k: k in (BB + "is_white_turn",))
     try:
         leaves = explore(f, var_of, domains, inliner=inl, keep_mem=lambda k: k.startswith(MF.MOVE), max_leaves=60000, relevant=set(sl.last_blocks))
